@@ -338,6 +338,9 @@ class Verifier:
             label = (prop + "/" if prop else "") + ccls.label
         m.check_prefix = label
         m.shape = shape
+        # specifications are evaluated without forking where possible; contracts whose quantified clauses the
+        # solvers only manage path by path switch this off (``spec_total = False``)
+        m.spec_total = bool(getattr(ccls, "spec_total", True))
         m.concretize_ranges = not m.modular
         try:
             f = self.target_func(m, ccls.target)
